@@ -401,7 +401,7 @@ def _drop_projected_dims(dims):
     Eliminate subsystems that has been collapsed to only one state due to
     a projection.
     """
-    return [d for d in dims if d != 1]
+    return [d for d in dims if d != 1] or [1]
 
 
 @overload
